@@ -126,11 +126,11 @@ func TestRegression_RegexpLiteralPrefixUnanchored(t *testing.T) {
 		expr string
 		want []uint32
 	}{
-		{"a", []uint32{1, 2, 3, 4}},  // memory path: 4 values; flushed (unfixed): 2
-		{"b", []uint32{2, 3, 4}},     // flushed (unfixed): 1
-		{"ab$", []uint32{2, 4}},      // flushed (unfixed): 1
-		{"^a", []uint32{1, 2}},       // anchored: prefix narrowing is legitimate
-		{"^ab|ba", []uint32{2, 3}},   // only one alternative anchored
+		{"a", []uint32{1, 2, 3, 4}}, // memory path: 4 values; flushed (unfixed): 2
+		{"b", []uint32{2, 3, 4}},    // flushed (unfixed): 1
+		{"ab$", []uint32{2, 4}},     // flushed (unfixed): 1
+		{"^a", []uint32{1, 2}},      // anchored: prefix narrowing is legitimate
+		{"^ab|ba", []uint32{2, 3}},  // only one alternative anchored
 		{"(?i)A", []uint32{1, 2, 3, 4}},
 	} {
 		rp := regexp.MustCompile(c.expr)
